@@ -124,4 +124,25 @@ PROPS = {
         ],
         "assumptions": ["callback: 'registered' is by composition with the SSO theorem - the stored pair is the pair the SSO endpoint persisted (C02_sso_persists_registered_pair); storage is trusted to return what was stored"],
     },
+    "C10": {
+        "modules": ["SamlModel.Props.C10"],
+        "translated": ["getResponseCert"],
+        "trusted_base": COMMON_TRUST + SSO_TRUST + CB_TRUST + [
+            "Model.Metadata (metadata / certificate / readiness handlers), Model.Logout, Model.AttrQuery: hand models tied by fingerprints and their correspondences",
+            "the fault enumeration on the implementation is exhaustive over (endpoint x storage call occurrence of the fault-free run x fault kind), singly and in pairs, for one valid request shape per endpoint",
+        ],
+        "assumptions": ["a storage operation either succeeds or returns an error / malformed key record; panics inside storage are the integrator's"],
+    },
+    "C11": {
+        "modules": ["SamlModel.Props.C11"],
+        "translated": ["Endpoint_Absolute", "Endpoint_Relative", "relativeEndpoint", "absoluteEndpoint", "getResponseCert",
+                       "signatureRedirectVerificationNecessary", "signaturePostVerificationNecessary"],
+        "trusted_base": COMMON_TRUST + SSO_TRUST + [
+            "Model.Metadata is a hand-written model of getMetadata / GetRoutes / CreateRouter / GetEntityID: tied by fingerprints (C11_source_current) and by the md correspondence (advertised locations and registered routes for every configuration)",
+            "gorilla/mux matching is not modelled: 'maps onto a route' is proved on the registered path strings under routesDistinct, and observed by requesting every advertised location",
+            "that every handler uses GetEntityID as Issuer is observed on every reply (Issuer == served entityID), and fingerprinted",
+        ],
+        "assumptions": ["routesDistinct: the configured routes are pairwise distinct and differ from /healthz and /ready (holds for the defaults, proved)",
+                        "hunsigned (C11_want_signed_means_refused): the XML-DSig validator rejects a document without signature (goxmldsig; sampled)"],
+    },
 }
